@@ -109,6 +109,8 @@ class Tr:
             self.env[p] = (e, t)
         self.notes = []
         self.uses_order = False
+        self.uses_eq = False
+        self._range_type = N
 
     # ---------------------------------------------------------------- expressions
     def err(self, node, msg):
@@ -287,7 +289,10 @@ class Tr:
             if sym is None:
                 self.err(e, "comparison operator")
             if t == K:
-                self.uses_order = True
+                if isinstance(op, (ast.Eq, ast.NotEq)):
+                    self.uses_eq = True
+                else:
+                    self.uses_order = True
             parts.append(f"{self.coerce(a, ta, t, e)} {sym} {self.coerce(b, tb, t, e)}")
             left = right
         return ("(" + " ∧ ".join(parts) + ")", B)
@@ -352,9 +357,10 @@ class Tr:
             return self.env[name]
         v, tv = self.expr(e.value)
         if isinstance(tv, tuple) and tv[0] == "A":
-            if len(idx) != tv[2]:
+            if len(idx) > tv[2]:
                 self.err(e, "number of indices")
-            return ("(" + " ".join([v] + [self.index(i) for i in idx]) + ")", tv[1])
+            app = "(" + " ".join([v] + [self.index(i) for i in idx]) + ")"
+            return (app, tv[1]) if len(idx) == tv[2] else (app, ("A", tv[1], tv[2] - len(idx)))
         if isinstance(tv, tuple) and tv[0] == "L":
             if len(idx) != 1:
                 self.err(e, "list index")
@@ -596,6 +602,14 @@ class Tr:
         if not (isinstance(it, ast.Call) and ast.unparse(it.func) in ("range", "numba.prange", "prange")) or it.keywords:
             self.err(node, "loop is not over range(..)")
         args = [self.expr(a) for a in it.args]
+        if any(t == I for _, t in args):
+            # a range over Python ints that may be negative
+            cs = [self.coerce(s, t, I, node) for s, t in args]
+            if len(cs) == 2:
+                self._range_type = I
+                return f"(pyRangeI {cs[0]} {cs[1]})"
+            self.err(node, "integer range form")
+        self._range_type = N
         cs = [self.coerce(s, t, N, node) for s, t in args]
         if len(cs) == 1:
             return f"(List.range {cs[0]})"
@@ -617,7 +631,7 @@ class Tr:
         types = [self.env[n][1] for n in state]
         env0 = dict(self.env)
         init = "(" + ", ".join(env0[n][0] for n in state) + ")" if len(state) > 1 else env0[state[0]][0]
-        self.env[v] = (v, N)
+        self.env[v] = (v, self._range_type)
         self.bind_state(state, types)
 
         def no_return(_):
@@ -728,6 +742,13 @@ def translate(specs, src_root: Path, header: str):
         sp._param_py = {}
         tr = Tr(sp, registry, fn)
         body = tr.run()
+        # instance requirements of the translated functions this one calls
+        import re as _re
+        for sp2 in registry.values():
+            if _re.search(r"(?<![A-Za-z0-9_.])" + _re.escape(sp2.lean) + r"(?![A-Za-z0-9_])", body):
+                tr.uses_order = tr.uses_order or sp2._uses_order
+                tr.uses_eq = tr.uses_eq or sp2._uses_eq
+        sp._uses_order, sp._uses_eq = tr.uses_order, tr.uses_eq
         uses_d = " d." in body or "(d." in body
         sp._uses_d = uses_d
         binders = "(o : Ops K)" + (" (d : Arim.Das.Data K D)" if uses_d else "")
@@ -736,7 +757,7 @@ def translate(specs, src_root: Path, header: str):
         tyvars = "{K : Type}" + (" {D : Type}" if uses_d else "")
         out.append(doc)
         rt = "Option (" + ret_type(sp.ret) + ")" if sp.raises else ret_type(sp.ret)
-        order = " [LT K] [DecidableLT K] [LE K] [DecidableLE K]" if tr.uses_order else ""
+        order = (" [LT K] [DecidableLT K] [LE K] [DecidableLE K]" if tr.uses_order else "") + (" [DecidableEq K]" if tr.uses_eq else "")
         sp._order = order
         out.append(f"def {sp.lean} {tyvars} [Add K] [Sub K] [Mul K] [Div K] [Neg K]{order}\n"
                    f"    {binders} {params} : {rt} :=\n{body}\n")
